@@ -24,8 +24,13 @@ count, clock, environment, directory names.
   `comparePackages_pinned_not_antisymm` (F08b witness for the pinned comparator),
   `minFunc_perm_invariant` (first minimum under a strict weak order only depends on the order inside
   each equivalence class), `nameMap_order_irrelevant` (two orders give permutations that keep
-  same-name packages in place), `bestPackage_order_irrelevant`, `resolvePackage_order_irrelevant`.
-  Lemmas: `Proofs/Lemmas/Comparator{Order,Lex,Min,NameMap}.lean`.
+  same-name packages in place), `bestPackage_order_irrelevant`, `resolvePackage_order_irrelevant`,
+  and the lift to whole resolutions `resolve_order_irrelevant` (every other use of `nameMap` only adds
+  ids to the disqualified SET, which the resolver reads through membership only — a simulation over
+  `constrain`, `disqualifyProviders`, `disqualifyConflicts`, `nextPackage`, `worldLoop`, `depOption`,
+  `depLoop`, `getDeps`, `getPackageWithDependencies`, `resolve`); `resolve_order_dependent_pinned`
+  is the concrete negation for the pinned comparator.
+  Lemmas: `Proofs/Lemmas/Comparator{Order,Lex,Min,NameMap,Dq,Deps,Resolve}.lean`.
 * What the model cannot exhibit (partial): the Go scheduler, pgzip, the runtime's map order, and the
   third-party tarball writer are exercised by the correspondence suite `repro` only (child processes
   under different GOMAXPROCS / TZ / umask / cwd / TMPDIR / environment / cache histories, every output
@@ -34,7 +39,7 @@ count, clock, environment, directory names.
 import Apko.Model.Resolver
 import Apko.Generated.Sites
 import Apko.Proofs.Lemmas.AuditedSites
-import Apko.Proofs.Lemmas.ComparatorNameMap
+import Apko.Proofs.Lemmas.ComparatorResolve
 
 namespace Apko.C01
 open Apko
@@ -456,5 +461,42 @@ example :
     Resolver.nameMap u o₂ "virt".toList = [Cmp.wB, Cmp.wA] := by
   refine ⟨by decide, ?_, by decide, by decide⟩
   exact List.Perm.swap _ _ _
+
+/-! ## … and neither does a whole resolution -/
+
+/-- the full statement: the result of `GetPackagesWithDependencies` (install list, conflicts, ghost
+flags, or the error outcome) does not depend on the map iteration order used by `newPkgResolver` -/
+def ResolveOrderIrrelevant (c : Resolver.Cfg) : Prop :=
+  ∀ o₁ o₂ : List Text, o₁.Perm o₂ → ∀ (world : List Text) (dq₀ : List Nat),
+    Resolver.resolve { c with order := o₁ } world dq₀ = Resolver.resolve { c with order := o₂ } world dq₀
+
+/-- T `resolve_order_irrelevant`: with the repaired comparator (F08b) the statement holds for EVERY
+universe, world, initial disqualified set, install_if mode and pair of orders (no hypothesis on the
+universe: ids need not be unique, versions need not parse). -/
+theorem resolve_order_irrelevant (c : Resolver.Cfg) (hb : c.bothBad = .eq) : ResolveOrderIrrelevant c :=
+  fun o₁ o₂ hp world dq₀ => Cmp.resolve_order_irrelevant c hb o₁ o₂ hp world dq₀
+
+/-- the F08b universe: `pa` provides `virt=abc`, `pb` provides `virt=xyz` -/
+def f08bCfg (bothBad : Ordering) : Resolver.Cfg :=
+  ⟨[⟨[], [], [Cmp.wA, Cmp.wB]⟩], [], bothBad, true, id⟩
+
+def installedIds (r : Res Resolver.Resolution) : List Nat :=
+  match r with | .ok x => x.install.map (·.id) | _ => []
+
+/-- negation witness for the pinned comparator: world `[virt]` installs `pa` under one map order
+and `pb` under the other. -/
+theorem resolve_order_dependent_pinned : ¬ ResolveOrderIrrelevant (f08bCfg .gt) := by
+  intro h
+  have := congrArg installedIds
+    (h ["pa".toList, "pb".toList] ["pb".toList, "pa".toList] (List.Perm.swap _ _ _) ["virt".toList] [])
+  revert this
+  decide
+
+/-- non-vacuity of `resolve_order_irrelevant`: the repaired configuration on the same universe
+resolves (to `pa`) under both orders. -/
+example : (f08bCfg .eq).bothBad = .eq ∧
+    installedIds (Resolver.resolve { f08bCfg .eq with order := ["pa".toList, "pb".toList] } ["virt".toList] []) = [0] ∧
+    installedIds (Resolver.resolve { f08bCfg .eq with order := ["pb".toList, "pa".toList] } ["virt".toList] []) = [0] := by
+  decide
 
 end Apko.C01
